@@ -34,6 +34,8 @@ impl From<LexiconSetError> for SudachiError { #[verifier::external_body] fn from
 spec fn pos_same(a: Vec<String>, b: Seq<String>) -> bool {
     a@.len() == b.len() && forall|k: int| 0 <= k < b.len() ==> (#[trigger] a@[k])@ == b[k]@
 }
+/// a loaded grammar: every part of speech has six components, and the ids fit 16 bits
+spec fn pos6(l: Seq<Vec<String>>) -> bool { l.len() <= 65536 && forall|i: int| 0 <= i < l.len() ==> (#[trigger] l[i])@.len() == 6 }
 spec fn is_prefix<T>(a: Seq<T>, b: Seq<T>) -> bool { a.len() <= b.len() && forall|i: int| 0 <= i < a.len() ==> b[i] == a[i] }
 
 /// `Vec::extend(Vec)`: appends the elements of the argument in order (trusted std)
@@ -47,18 +49,34 @@ fn to_components(pos: &[String]) -> (r: Vec<String>)
     ensures pos_same(r, pos@)
 { pos.iter().map(|x| x.to_string()).collect() }
 
+/// R14z: `a.iter().zip(b).all(|(x, y)| x.as_ref() == y)`: true iff the two lists agree on their common prefix (std zip / all)
+#[verifier::external_body]
+fn zip_all_equal(a: &[String], b: &Vec<String>) -> (r: bool)
+    ensures r == (forall|k: int| 0 <= k < a@.len() && k < b@.len() ==> (#[trigger] a@[k])@ == b@[k]@)
+{ a.iter().zip(b).all(|(x, y)| x == y) }
+
 impl<'a> Grammar<'a> {
-// ASSUMED contract (iterator adapters zip/all are outside Verus): first index whose components equal `pos1`
+// the real loop and length guard; the iterator chain `a.iter().zip(b).all(|(x, y)| x.as_ref() == y)` is an ASSUMED helper
+// (zip_all_equal: componentwise equality over the common prefix)
 //@extract sudachi/src/dic/grammar.rs :: impl<'a> Grammar<'a> :: fn get_part_of_speech_id
 //@  rw Rgen 1 custom
 //@  | fn get_part_of_speech_id<S>\(&self, pos1: &\[S\]\) -> Option<u16>\s*where\s*S: AsRef<str>,
 //@  > fn get_part_of_speech_id(&self, pos1: &[String]) -> Option<u16>
+//@  rw R14z 1 custom
+//@  | pos1\.iter\(\)\.zip\(pos2\)\.all\(\|\(a, b\)\| a\.as_ref\(\) == b\)
+//@  > zip_all_equal(pos1, pos2)
+//@  rw R6 1
 //@  ret r
-//@  stub ASSUMED_iterator_adapters
 //@  spec
+        requires pos6(self.pos_list@)
         ensures
             r is Some ==> (r->Some_0 as int) < self.pos_list@.len() && pos_same(self.pos_list@[r->Some_0 as int], pos1@),
             r is None ==> forall|i: int| 0 <= i < self.pos_list@.len() ==> !pos_same(#[trigger] self.pos_list@[i], pos1@),
+//@  loop 1
+            invariant
+                pos1@.len() == 6, pos6(self.pos_list@), __it_i <= self.pos_list@.len(),
+                forall|i: int| 0 <= i < __it_i ==> !pos_same(#[trigger] self.pos_list@[i], pos1@),
+            decreases self.pos_list@.len() - __it_i
 //@end
 
 //@extract sudachi/src/dic/grammar.rs :: impl<'a> Grammar<'a> :: fn register_pos
@@ -90,6 +108,7 @@ impl<'a> Grammar<'a> {
 
 // R11: `impl UserPosSupport for &mut Grammar` checked as an inherent fn of Grammar (same body; `self` auto-derefs)
 //@extract sudachi/src/util/user_pos.rs :: impl<'a> UserPosSupport for &'a mut Grammar<'_> :: fn handle_user_pos
+//@  twin
 //@  rw Rgen 1 custom
 //@  | fn handle_user_pos<S: AsRef<str> \+ ToString \+ Display>\(\s*&mut self,\s*pos: &\[S\],
 //@  > fn handle_user_pos(&mut self, pos: &[String],
@@ -98,7 +117,9 @@ impl<'a> Grammar<'a> {
 //@  > err_string()
 //@  ret r
 //@  spec
+        requires pos6(old(self).pos_list@)
         ensures
+            pos6(final(self).pos_list@),
             // whatever happens, ids handed out earlier keep their meaning
             is_prefix(old(self).pos_list@, final(self).pos_list@),
             final(self).pos_list@.len() <= old(self).pos_list@.len() + 1,
